@@ -81,7 +81,12 @@ const (
 	FailPanic             // panic("probe failure")
 	FailCancel            // invoke Cancel() and then return normally
 	FailNilDeref          // dereference a nil pointer (runtime panic)
+	FailPanicValue        // panic with a value that is neither an error nor a string (a struct)
+	FailPanicError        // panic with an error value
 )
+
+// Bailout is a panic value that is neither an error, a string nor a Stringer.
+type Bailout struct{ Code int }
 
 // ProbeCall records one invocation.
 type ProbeCall struct {
@@ -152,6 +157,10 @@ func (f *Fact) hit(name string, id int64) {
 		case FailNilDeref:
 			var s *Sub
 			_ = s.X
+		case FailPanicValue:
+			panic(Bailout{Code: p.N})
+		case FailPanicError:
+			panic(fmt.Errorf("probe failure at call %d (%s %d)", p.N, name, id))
 		}
 	}
 }
@@ -258,6 +267,13 @@ func (f *Fact) PokeS(v string) { f.S = v }
 func (f *Fact) Boom() int64 { panic("boom") }
 
 func (f *Fact) BoomB() bool { panic("boomb") }
+
+// BoomI panics with an integer, BoomV with a struct value, BoomE with an error.
+func (f *Fact) BoomI() int64 { panic(42) }
+
+func (f *Fact) BoomV() int64 { panic(Bailout{Code: 7}) }
+
+func (f *Fact) BoomE() int64 { panic(fmt.Errorf("boome")) }
 
 func (f *Fact) Two() (int64, error) { return 1, fmt.Errorf("two results") }
 
